@@ -125,9 +125,16 @@ theorem and_one (a : Nat) : a &&& 1 = a % 2 := Nat.and_one_is_mod a
 theorem and_mask (a k : Nat) : a &&& (2 ^ k - 1) = a % 2 ^ k := Nat.and_two_pow_sub_one_eq_mod a k
 
 /-- closes linear goals about generated arithmetic after unfolding: shifts by literals become `* 2^k`, `/ 2^k`. -/
+macro "src_fin" : tactic =>
+  `(tactic| first
+      | done
+      | omega
+      | (constructor <;> omega)
+      | (split <;> first | omega | (constructor <;> omega) | (split <;> first | omega | (constructor <;> omega))))
+
 macro "src_arith" : tactic =>
-  `(tactic| all_goals ((try simp only [shiftLeft_lit, shiftRight_lit, and_one, Py.ceilDiv, Nat.reducePow, Nat.one_mul, ge_iff_le, gt_iff_lt,
-                true_and, and_true, Bool.true_eq_false, Bool.false_eq_true, if_true, if_false, decide_eq_decide]) <;>
-             (try split) <;> (try split) <;> (try constructor) <;> omega))
+  `(tactic| all_goals
+      ((try simp only [shiftLeft_lit, shiftRight_lit, and_one, Py.ceilDiv, Nat.reducePow, Nat.one_mul, ge_iff_le, gt_iff_lt,
+          true_and, and_true, Bool.true_eq_false, Bool.false_eq_true, if_true, if_false, decide_eq_decide]) <;> src_fin))
 
 end TonVerif.Proofs.SrcArith
